@@ -80,12 +80,12 @@ F = [gen.Feats(cond=True, contg=True, nullable_star=True, refs_closed=False), ge
 LB = ["(?<=%s)c", "(?<!%s)c", "x(?<=%s)", "(?<=a%s)", "(?<=%s|b)"]
 LBF = ["ab|c", "bc|a", "a|bc", "abc|de|f", "a(?:cd|b)", "é", "éa|b", "a{2}", "a{1,2}", "(a)|(b)", "\\b", "(?:a|é)b", ".", "..", "a*", "(?(1)a|b)", "(?:ab|a)", "[ab]é", "(?=a)", "a|é",
        # conditionals whose CONDITION consumes a variable number of characters
-       "(?(a+)b|cc)", "(?(a|bb)c|dd)", "(?(a?)b|c)", "(?(a)b|c)", "(?(a)b|cc)", "(?(a*)bb|cc)", "(?((a)|bc)a|b)", "(?(ab?)c)"]
+       "𝄞", "a𝄞", "𝄞{2}", "b|𝄞", "\\x{1D11E}", "(?i:𝄞)", "(?(a+)b|cc)", "(?(a|bb)c|dd)", "(?(a?)b|c)", "(?(a)b|c)", "(?(a)b|cc)", "(?(a*)bb|cc)", "(?((a)|bc)a|b)", "(?(ab?)c)"]
 CFG = {
     "prop": "C13", "theorems": THEOREMS, "feats": F, "n_quick": 350, "n_thorough": 8000,
     "tiers": ("t2", "sem"), "extras": [lens_check, gate_check], "sem_is_property": False,
     "corpus": [c % f for c in LB for f in LBF] + ["(?(a)b)", "(?:(?(a)b))*", "(?:ab){2}(?<=abab)", "(?<=\\Z)a", "\\Z"],
-    "alpha": ["a", "b", "c", "é", "\n", "-"], "extra_texts": ["éaé", "aéb", "ébc", "abé", "€a", "a€b", "𝄞b", "ab𝄞"],
+    "alpha": ["a", "b", "c", "é", "\n", "-"], "extra_texts": ["éaé", "aéb", "ébc", "abé", "€a", "a€b", "𝄞b", "ab𝄞", "𝄞c", "b𝄞ac", "𝄞𝄞c", "a𝄞c"],
     "k_base_quick": 10, "k_extra_quick": 12,
     "assumptions": ["text is valid UTF-8 shorter than 2^64 bytes; literal nodes are one character and class nodes have size 1 (parser invariant, checked on the parsed trees by T2)",
                     "the look-behind gate (compile fails iff some look-behind alternative is not constant-size) is tied by T2, not proved",
